@@ -22,6 +22,9 @@ func genWritePath(c *fw.Ctx, r *rng.R, root *model.Node) string {
 	var cur *model.Node = root // nil once we are below something that does not exist / is no container
 	curKind := root.K
 	length := r.Range(1, 5)
+	if r.Chance(1, 10) {
+		length = r.Range(6, 45)
+	}
 	for s := 0; s < length; s++ {
 		last := s == length-1
 		var child model.Val
@@ -156,9 +159,50 @@ func runC11(c *fw.Ctx) {
 				rootKind = spec.Obj
 			}
 			tree := genTFTree(r, rootKind, r.Range(1, 4))
+			if r.Chance(1, 20) {
+				// a deep chain: writes then go through long existing paths
+				tree = spec.ListV(spec.IntV(1))
+				for j := r.Range(10, 40); j > 0; j-- {
+					if r.Bool() {
+						tree = spec.ListV(spec.IntV(j), tree)
+					} else {
+						tree = spec.ObjV(tfKeys[r.Intn(len(tfKeys))], tree)
+					}
+				}
+				if (tree.K == spec.List) != (rootKind == spec.List) {
+					rootKind = tree.K
+				}
+			}
 			root := p.h.FromSpec(tree)
 			p.trace = append(p.trace, "root = "+tree.Canon())
 			p.checkHeap()
+			// now and then the tree also gets lists that were produced by NewListOf / SubList / Concat (their slots
+			// share element storage with one another or with a source list that stays alive outside the tree)
+			if r.Chance(1, 3) {
+				src := p.h.FromSpec(spec.ListV(spec.IntV(0), spec.IntV(0), spec.StrV("s"), spec.StrV("s"), spec.FloatV(1.5), spec.BoolV(true)))
+				p.trace = append(p.trace, src.Name()+" = NewList(0,0,\"s\",\"s\",1.5,true)")
+				var derived *model.Node
+				switch r.Intn(3) {
+				case 0:
+					derived = c05SubList(p, src, 0, 0)
+				case 1:
+					derived = c05Concat(p, src, src)
+				default:
+					derived = p.h.NewList(nil)
+					v := scalarVal(r)
+					k := r.Range(2, 5)
+					p.step("NewListOf", fmt.Sprintf("%s = NewListOf(%s, %d)", derived.Name(), v, k), false, func() {
+						for j := 0; j < k; j++ {
+							derived.E = append(derived.E, v)
+						}
+						derived.Real = at.NewListOf(p.h.Arg(v), k)
+					})
+				}
+				if !p.failed && derived.Real != nil {
+					c11Set(p, root, genWritePath(c, r, root), model.Ref(derived))
+					c.Count("derived_lists_in_tree")
+				}
+			}
 			for w := 0; w < writes && !p.failed; w++ {
 				if r.Chance(3, 4) {
 					path := genWritePath(c, r, root)
